@@ -177,6 +177,12 @@ def build(run):
     run.kani(crate_d, [lemma_d], timeout=300)
     crate_c, lemma_c = mm_lemma(run)
     run.kani(crate_c, [lemma_c], timeout=900)
+    crate_e, lemma_e = merge_lemma(run)
+    run.kani(crate_e, [lemma_e], timeout=900)
+    crate_f, lemma_f = mn_lemma(run)
+    run.kani(crate_f, [lemma_f], timeout=600)
+    crate_g, lemma_g = post_loop_lemma(run)
+    run.kani(crate_g, [lemma_g], timeout=600)
 
 
 # ======================================================================================================================
@@ -292,3 +298,180 @@ def semantics_lemma(run):
     return crate, dict(id="K-C02-d.semantics_arm_returns_element", harness="semantics_arm_always_returns_an_element", api=lambda v, o: api_semantics(),
                        role=lambda v, o: "semantics-dropped", covers=["presentation child cleaned away reachable"],
                        claim="the semantics arm returns Some(element) whether or not the presentation child survives cleaning")
+
+
+# ======================================================================================================================
+# D-C02-e: the leaf merges that delete a following sibling (merge_arc_trig, merge_vertical_bars) never shorten an element with a fixed arity
+MERGE_SHIM = r"""
+#[allow(dead_code)]
+mod definitions {
+    pub struct Defs; pub struct Names; pub struct Key;
+    impl Defs { pub fn borrow(&self) -> &Defs { self } pub fn get_hashset(&self, _n: &str) -> Option<Names> { Some(Names) } }
+    impl Names { pub fn contains(&self, t: &str) -> bool { t == "sin" } }      // stand-in for the TrigFunctionNames set of the language's definitions.yaml
+    impl Key { pub fn with<R>(&self, f: impl FnOnce(&Defs) -> R) -> R { f(&Defs) } }
+    pub static SPEECH_DEFINITIONS: Key = Key;
+}
+"""
+
+MERGE_HARNESS = r"""
+HARNESS(sibling_merges_keep_fixed_arity, 12) {
+    let fixed = sym::bool();
+    let parent = dom::new_node(if fixed { 9 } else { 5 });                   // mfrac / mrow
+    let n = if fixed { 2 } else { 1 + sym::below(3) };
+    const LEAF_KINDS: [u8; 3] = [0, 7, 4];                                   // mi mo mtext
+    const LEAF_TEXTS: [u8; 5] = [8, 9, 11, 12, 4];                           // "arc" "sin" "|" "||" "x"
+    let mut i = 0;
+    while i < 3 { if i < n { let c = dom::new_node(LEAF_KINDS[sym::below(3)]); dom::set_leaf(c, LEAF_TEXTS[sym::below(5)]); parent.append_child_id(c.id); } i += 1; }
+    let leaf = as_element(parent.children()[sym::below(n)]);
+    let arc = sym::bool();
+    let r = if arc { merge_arc_trig(leaf) } else { merge_vertical_bars(leaf) };
+    let after = parent.children().len();
+    cover!(arc && after < n, "arc + trig name merged reachable");
+    cover!(!arc && after < n, "two bars merged reachable");
+    cover!(fixed && r.is_some(), "merge function applies under mfrac reachable");
+    if fixed { assert!(after == 2, "a child of an element with a fixed number of children was merged into its sibling"); }
+    assert!(after + 1 >= n, "more than one sibling removed");
+}
+"""
+
+
+def api_merge(vals=None, out=None):
+    import re
+    res = mcprobe([("mathml", "<math><mfrac><mi>arc</mi><mi>sin</mi></mfrac></math>"), ("mathml", "<math><mfrac><mo>|</mo><mo>|</mo></mfrac></math>")])
+    bad = [r for r in res if not (r[0] == "OK" and len(re.findall(r"<m[ion]\b", r[1])) >= 2 or r[0] == "ERR")]
+    return bool(bad), {"script": "set_mathml(mfrac whose two children are 'arc','sin' / '|','|'): the mfrac must keep two children", "results": res}
+
+
+def merge_lemma(run):
+    c = slicer.Source.get("src/canonicalize.rs")
+    cm = c.find("fn clean_mathml")
+    arc = c.find("fn clean_mathml", "fn merge_arc_trig")
+    bars = c.find("fn clean_mathml", "fn merge_vertical_bars")
+    fixed = c.find("static ELEMENTS_WITH_FIXED_NUMBER_OF_CHILDREN")
+    run.uses(arc, bars, fixed)
+    crate = kani_run.Crate("c02merge", prelude.PHF_MOCK + prelude.MINIDOM + MERGE_SHIM + fixed.text + arc.text + bars.text + MERGE_HARNESS, native_deps=prelude.PHF_NATIVE_DEP)
+    run.bound("D-C02-e", "parent mfrac (2 children) or mrow (1..3 children); children are mi/mo/mtext leaves with text in {arc, sin, |, ||, x}; the merge is applied to any child")
+    run.assume("model DOM (MINIDOM); the TrigFunctionNames set of definitions.yaml replaced by {sin}")
+    return crate, dict(id="D-C02-e.sibling_merges_keep_fixed_arity", harness="sibling_merges_keep_fixed_arity", api=lambda v, o: api_merge(),
+                       role=lambda v, o: "fixed-arity-child-merged-away",
+                       covers=["arc + trig name merged reachable", "two bars merged reachable", "merge function applies under mfrac reachable"],
+                       claim="merge_arc_trig / merge_vertical_bars never remove a child of an element with a fixed number of children, and remove at most one sibling")
+
+
+# ======================================================================================================================
+# D-C02-f: the "mn" arm of clean_mathml never produces an empty token
+MN_SHIM = r"""
+pub struct CanonicalizeContext;
+impl CanonicalizeContext { fn make_roman_numeral(_e: Element) { } }
+fn is_roman_number_match(_t: &str) -> bool { false }
+const CHANGED_ATTR: &str = "data-changed";
+const ADDED_ATTR_VALUE: &str = "added";
+fn mn_arm<'a>(mathml: Element<'a>) -> Option<Element<'a>> {
+    ARM_BODY
+}
+fn no_empty_token(e: Element) -> bool {
+    if is_leaf(e) { return !as_text(e).is_empty(); }
+    let ch = e.children(); let mut i = 0;
+    while i < ch.len() { let c = as_element(ch[i]); if is_leaf(c) && as_text(c).is_empty() { return false; } i += 1; }
+    true
+}
+fn go(t: u8) {
+    let mn = dom::new_node(6);
+    dom::set_leaf(mn, t);
+    let r = mn_arm(mn).unwrap();
+    cover!(name(&r) == "mrow" && t == 7, "negative number split reachable");
+    cover!(t == 6, "lone minus reachable");
+    assert!(no_empty_token(r), "an mn holding only a minus sign is split into <mo>-</mo> and an EMPTY <mn/>");
+}
+HARNESS(mn_arm_leaves_no_empty_token, 8) {
+    // solver-selected literal cases: "1" "-" "-1" "\u{2212}" "\u{2212}1" "?"
+    match sym::below(6) { 0 => go(5), 1 => go(6), 2 => go(7), 3 => go(14), 4 => go(15), _ => go(16) }
+}
+"""
+
+
+def api_mn(vals=None, out=None):
+    import re
+    res = mcprobe([("mathml", "<math><mn>-</mn></math>"), ("mathml", "<math><mn>−</mn></math>")])
+    bad = [r for r in res if r[0] == "OK" and re.search(r"<m[ion][^>]*></m[ion]>", r[1])]
+    return bool(bad), {"script": "set_mathml(<mn>-</mn>): no empty token may be returned", "results": res}
+
+
+def mn_lemma(run):
+    c = slicer.Source.get("src/canonicalize.rs")
+    cm = c.find("fn clean_mathml")
+    arm = c.find_bracketed('"mn" => {', within=cm)[0]
+    body = arm.text[arm.text.index("{") + 1: arm.text.rindex("}")]
+    run.uses(arm)
+    crate = kani_run.Crate("c02mn", prelude.MINIDOM + MN_SHIM.replace("ARM_BODY", body))
+    run.bound("D-C02-f", "mn text in {1, -, -1, U+2212, U+2212 1, ?}: the body of the \"mn\" arm of clean_mathml, after the empty-leaf test that precedes the match")
+    run.assume("model DOM (MINIDOM); is_roman_number_match false, make_roman_numeral a no-op")
+    return crate, dict(id="D-C02-f.mn_arm_no_empty_token", harness="mn_arm_leaves_no_empty_token", api=lambda v, o: api_mn(),
+                       role=lambda v, o: "lone-minus-mn-split",
+                       covers=["negative number split reachable", "lone minus reachable"],
+                       claim="whatever the mn holds, the arm returns a tree without empty token elements")
+
+
+# ======================================================================================================================
+# D-C02-g: an mrow whose children were ALL deleted by the child-cleaning loop of clean_mathml does not survive as an empty mrow
+POST_SHIM = r"""
+pub struct CanonicalizeContext;
+static mut FELL_THROUGH: bool = false;
+static mut MERGE_OK: bool = false;
+const INTENT_ATTR: &str = "intent";
+fn add_attrs(_e: Element, _a: &()) { }
+impl<'a> dom::Element<'a> { fn attributes(&self) -> () { } fn clear_children(&self) { unsafe { dom::NCH[self.id as usize] = 0; } } }
+impl CanonicalizeContext {
+    fn is_ok_to_merge_mrow_child(_e: Element) -> bool { unsafe { MERGE_OK } }
+    MAKE_EMPTY
+}
+#[allow(unused_variables, unused_mut, unreachable_code)]
+fn post_loop<'a>(mathml: Element<'a>, element_name: &str, mut children: Vec<ChildOfElement<'a>>, parent_name: &str, parent_requires_child: bool) -> Option<Element<'a>> {
+    SEGMENT
+    unsafe { FELL_THROUGH = true; }
+    return Some(mathml);
+}
+HARNESS(emptied_mrow_does_not_survive, 16) {
+    let parent_kind: [u8; 3] = [5, 9, 3];                                     // mrow / mfrac / mmultiscripts
+    let pk = parent_kind[sym::below(3)];
+    let parent = dom::new_node(pk);
+    let e = dom::new_node(5);                                                 // the mrow being cleaned
+    parent.append_child_id(e.id);
+    let n = sym::below(3);                                                    // children left after the loop
+    let mut i = 0; while i < 2 { if i < n { let c = dom::new_node(0); dom::set_leaf(c, 4); e.append_child_id(c.id); } i += 1; }
+    unsafe { MERGE_OK = sym::bool(); }
+    let parent_name = name(&parent);
+    let r = post_loop(e, "mrow", e.children(), parent_name, pk == 9);
+    cover!(n == 0, "all children deleted reachable");
+    cover!(n == 2 && unsafe { FELL_THROUGH }, "ordinary mrow falls through to the rest of clean_mathml reachable");
+    if n == 0 {
+        assert!(!unsafe { FELL_THROUGH } && (r.is_none() || name(&r.unwrap()) != "mrow"), "an mrow emptied by cleaning its children is kept as <mrow/> (no intent): an illegal row that later code indexes into");
+        if pk == 9 { assert!(r.is_some(), "a required child disappears"); }
+    }
+}
+"""
+
+
+def api_post(vals=None, out=None):
+    import re
+    res = mcprobe([("mathml", "<math><msub><mi>x</mi><mrow><mphantom><mi>a</mi></mphantom><mphantom><mi>b</mi></mphantom></mrow></msub></math>"),
+                   ("mathml", "<math><mfrac><mrow><mphantom><mi>a</mi></mphantom><mphantom><mi>b</mi></mphantom></mrow><mn>2</mn></mfrac></math>")])
+    bad = [r for r in res if r[0] not in ("OK", "ERR") or r[0] == "OK" and re.search(r"<mrow[^>]*>\s*</mrow>", r[1])]
+    return bool(bad), {"script": "set_mathml(script / numerator is an mrow holding only mphantoms)", "results": res}
+
+
+def post_loop_lemma(run):
+    c = slicer.Source.get("src/canonicalize.rs")
+    cm = c.find("fn clean_mathml")
+    loop = c.find_expr("while i < children . len ( )", within=cm)
+    nxt = c.find_expr('if element_name == "mrow" || ELEMENTS_WITH_ONE_CHILD . contains ( element_name )', within=slicer.Span(c, loop.end, cm.end, cm.name))
+    seg = slicer.Span(c, loop.end, nxt.start, "clean_mathml::after_child_loop")
+    mk = c.find("impl CanonicalizeContext", "fn make_empty_element")
+    run.uses(seg, mk)
+    crate = kani_run.Crate("c02post", prelude.MINIDOM + POST_SHIM.replace("MAKE_EMPTY", mk.text).replace("SEGMENT", seg.text))
+    run.bound("D-C02-g", "the statements of clean_mathml between its child-cleaning loop and the merge_number_blocks step, for an mrow (no intent) left with 0..2 children under an mrow / mfrac / mmultiscripts parent")
+    run.assume("model DOM (MINIDOM); is_ok_to_merge_mrow_child arbitrary; attributes other than id not modelled (so the mrow never has an intent)")
+    return crate, dict(id="D-C02-g.emptied_mrow_does_not_survive", harness="emptied_mrow_does_not_survive", api=lambda v, o: api_post(),
+                       role=lambda v, o: "emptied-mrow-kept",
+                       covers=["all children deleted reachable", "ordinary mrow falls through to the rest of clean_mathml reachable"],
+                       claim="an mrow with no children left is removed, replaced by a placeholder when the parent needs the child, or turned into none under mmultiscripts")
